@@ -3,7 +3,9 @@ CONSTANTS
   Variant = "built"
   Loadables <- PoolQuick
   OpKinds = {"Load", "Render", "Get", "Validate", "Remove", "Clear", "SetBasePath"}
-  MaxLoads = 4
+  ArgNames = {"base", "A", "B", "G"}
+  Entries = {"doc", "tpl"}
+  MaxLoads = 3
   Depth = 0
 INVARIANTS Inv_ShowsPure Inv_RenderPure Inv_CacheAgree
 PROPERTIES Act_Local Act_ReadersPure Act_ValuesImmutable
